@@ -194,7 +194,7 @@ Qed.
 
 Theorem shape_add_leaf t id start t' idx : shape_ok t -> add_leaf t id start = TOk (t', idx) -> shape_ok t'.
 Proof.
-  intros S. unfold add_leaf. destruct (lift (path_nodes _ _)) as [path| |]; cbn [tbind]; try discriminate.
+  intros S. unfold add_leaf. destruct (negb _); [discriminate|]. destruct (lift (path_nodes _ _)) as [path| |]; cbn [tbind]; try discriminate.
   destruct (update_unmerged _ _ path) as [t2| |] eqn:U; cbn [tbind]; try discriminate.
   intro E. inversion E; subst. eapply shape_update_unmerged; [|exact U]. apply shape_insert_leaf. exact S.
 Qed.
@@ -331,7 +331,7 @@ Qed.
 Theorem add_leaf_index t id start t' idx :
   add_leaf t id start = TOk (t', idx) -> idx = next_empty_leaf t start.
 Proof.
-  unfold add_leaf. destruct (lift (path_nodes _ _)) as [path| |]; cbn [tbind]; try discriminate.
+  unfold add_leaf. destruct (negb _); [discriminate|]. destruct (lift (path_nodes _ _)) as [path| |]; cbn [tbind]; try discriminate.
   destruct (update_unmerged _ _ path) as [t2| |]; cbn [tbind]; try discriminate.
   intro E. inversion E; subst. reflexivity.
 Qed.
